@@ -51,6 +51,34 @@ def table_fields(prog, res_cls):
     return out
 
 
+def _last_assign(pm, st, name):
+    """the last plain assignment to `name` that precedes statement st, walking outwards through the enclosing statement lists"""
+    cur = st
+    while cur is not None:
+        par = pm.get(cur)
+        for field in ("body", "orelse", "finalbody"):
+            blk = getattr(par, field, None) if par is not None else None
+            if isinstance(blk, list) and cur in blk:
+                for prev in reversed(blk[:blk.index(cur)]):
+                    if isinstance(prev, ast.Assign) and any(isinstance(t, ast.Name) and t.id == name for t in prev.targets):
+                        return prev
+                    if any(isinstance(x, ast.Name) and x.id == name and isinstance(x.ctx, (ast.Store, ast.Del)) for x in ast.walk(prev)):
+                        return None         # bound in another way in between
+        cur = par
+    return None
+
+
+def _copy_chain(pm, st, name, depth=0):
+    """the variables `name` is a plain copy of at statement st (x = y chains), itself first"""
+    a = _last_assign(pm, st, name)
+    if a is not None and isinstance(a.value, ast.Name) and depth < 8:
+        # the source must not have been re-bound between the copy and st
+        b = _last_assign(pm, st, a.value.id)
+        if b is None or b.lineno <= a.lineno:
+            return [name] + _copy_chain(pm, a, a.value.id, depth + 1)
+    return [name]
+
+
 def slots(prog, run):
     """applymask returns its list filtered element by element: the k-th returned table must be bound to the variable that was passed at
     position k - otherwise two tables (say the frequency and the damping covariances) silently change places"""
@@ -98,6 +126,12 @@ def slots(prog, run):
             if lst_names is None:
                 continue
             ok = lst_names == tg_names
+            if not ok and st is not None:
+                # elements that are plain copies of a table variable stand for that variable
+                src_stmt = st if isinstance(lst, (ast.List, ast.Tuple)) else found
+                chains = [_copy_chain(pm, src_stmt, x) if x.isidentifier() else [x] for x in lst_names]
+                if len(chains) == len(tg_names) and all(t in ch for t, ch in zip(tg_names, chains)):
+                    ok, lst_names = True, list(tg_names)
             run.ob("R-slots", m.qual, "filtered tables return to their variables", ok,
                    f"passed {lst_names}, bound back to {tg_names}" + ("" if ok else " - tables change places"), witness=f"{lst_names}->{tg_names}", file=f, node=c, config=f"call#{n}")
     if not n:
@@ -314,9 +348,16 @@ def classes_rules(prog, run, classes, rn, only=None):
                 continue
             for env, node in calls:
                 ls = {l for l in labels(env.get(param)) if l.startswith("hc:")}
+                alts = sorted(l[4:] for l in labels(env.get(param)) if l.startswith("alt:hc:"))
                 ok = ls == {f"hc:{k}"}
+                if not ok and not ls and blind:
+                    ok = None
+                detail = f"{param} <- {sorted(ls)}" + (blind if ok is None else "")
+                if ok and alts:
+                    ok = False
+                    detail = f"{param} <- `{alts[0]} or <another value>`: a falsy limit set by the user (0, 0.0, False) never reaches the criterion, the fallback is used instead"
                 run.ob(rn["bind"], runf.qual, f"hc['{k}'] -> {fq.split('.')[-1]}.{param}", ok,
-                       f"{param} <- {sorted(ls)}", witness=f"{param}<-{sorted(ls)}", file=f, node=node, config=cfg)
+                       detail, witness=f"{param}<-{sorted(ls)}{'|alt' if alts else ''}", file=f, node=node, config=cfg)
 
 
 def _canon(prog, fi, cmp_node, params):
